@@ -678,3 +678,41 @@ Definition C07_ok := monitor P07.
 Definition C08_ok := monitor P08.
 Definition C09_ok := monitor P09.
 Definition C20_ok := monitor P20.
+
+(* --- C09, additional clause kept separate (known finding RR2): a round-robin
+   BIND pick must be assigned a channel of the POOL.  The code rotates over
+   scRefList, which keeps the slots of connections that were shut down, so a
+   BIND call can be assigned a dead channel (and then waits until its context
+   ends).  Only reachable when a pool connection is shut down without the
+   balancer having removed it (gRPC never does that). --- *)
+Definition c09d_event (raw : option config) (ms : mstate) (before : obs) (ev : event) : bool :=
+  match ev_op ev with
+  | OpPick pi m _ _ _ _ =>
+      match nth_picker ms pi with
+      | Some (PSnap (_ :: _)) =>
+          if is_rr_bind raw m then
+            let rr := (o_rr before + 1) mod W32 in
+            o_slot_in_pool before (Z.to_nat (rr mod Z.of_nat (length (o_slots before))))
+          else true
+      | _ => true
+      end
+  | _ => true
+  end.
+
+Fixpoint c09d_from (raw : option config) (ms : mstate) (before : obs) (tr : list event) : bool :=
+  match tr with
+  | [] => true
+  | ev :: r =>
+      match ev_obs ev with
+      | Some after =>
+          c09d_event (raw_in_force raw ms (ev_op ev)) ms before ev &&
+          c09d_from raw (track raw ms before ev after) after r
+      | None => true
+      end
+  end.
+
+Definition C09D_ok (raw : option config) (o0 : obs) (tr : list event) : bool := c09d_from raw ms_init o0 tr.
+
+(* trigger of known finding RR2: C09 proper holds, only the dead-slot clause fails *)
+Definition known_RR2 (raw : option config) (o0 : obs) (tr : list event) : bool :=
+  C09_ok raw o0 tr && negb (C09D_ok raw o0 tr).
